@@ -195,6 +195,15 @@ class ProbeNode(BaseNode):
         self.p = int(p)
         self.do_log = log
         self.use_callback = use_callback  # io_callback (works jitted and un-jitted)
+        self.delay_from_params = []  # input names whose delay (ticks) is the node's param p
+        self.delays_override = {}  # input name -> delay (s) returned by init_delays (trainable delays, C10)
+
+    def init_delays(self, rng=None, graph_state=None):
+        d = dict(super().init_delays(rng, graph_state))
+        d.update(self.delays_override)
+        for iname in self.delay_from_params:  # the rex idiom: trainable delays taken from the node's params in the graph state
+            d[iname] = graph_state.params[self.name].p.astype(jnp.float32) / GRID
+        return d
 
     def init_params(self, rng=None, graph_state=None) -> ProbeParams:
         return ProbeParams(p=jnp.int32(self.p))
